@@ -56,7 +56,7 @@ type world struct {
 	file    []byte
 }
 
-var signerPools = [][]string{{"a-p256", "c-p256", "d-p384"}, {"b-p384", "c-p256", "d-p384"}, {"a2-p256", "d-p384", "c-p256"}}
+var signerPools = [][]string{{"a-p256", "c-p256", "d-p384"}, {"b-p384", "c-p256", "d-p384"}, {"a2-p256", "d-p384", "c-p256"}, {"e-p256", "f-p384", "a-p256"}, {"f-p384", "c-p256", "e-p256"}}
 
 func covers(leaf *fixtures.Leaf, u *url.URL) bool {
 	return leaf.Cert().VerifyHostname(u.Hostname()) == nil
@@ -150,10 +150,10 @@ func (w *world) chain(s signerSpec) certurl.CertChain {
 func (w *world) chain0(s signerSpec) certurl.CertChain {
 	certs := []*x509.Certificate{s.leaf.Cert()}
 	if s.chainLen > 1 {
-		certs = append(certs, fixtures.CA())
+		certs = append(certs, s.leaf.Issuer())
 	}
 	if s.chainLen > 2 {
-		certs = append(certs, fixtures.CA()) // (a cross-signed copy of the root as third element)
+		certs = append(certs, s.leaf.Issuer()) // (a cross-signed copy of the root as third element)
 	}
 	ch, err := certurl.NewCertChain(certs, []byte("ocsp-"+s.leaf.Name), nil)
 	if err != nil {
@@ -196,7 +196,11 @@ func (w *world) sign(reload bool) error {
 		signer.Algorithm, _ = verifhook.SigningAlgorithmForPrivateKey(s.leaf.Key, fixtures.ConstReader{B: s.entropy})
 		// record what this signer is about to vouch for
 		for j, e := range b.Exchanges {
-			if !signer.CanSignForURL(e.Request.URL) {
+			// (coverage is judged by crypto/x509 on the URL's host name, not by the signer)
+			if can := signer.CanSignForURL(e.Request.URL); can != covers(s.leaf, e.Request.URL) && c.Oracle("C06") {
+				c.Violation("coverage-misjudged", "Signer.CanSignForURL", "CanSignForURL(%q) = %v, the certificate of %s (names %v) says %v", e.Request.URL, can, s.leaf.Name, s.leaf.Hosts, !can)
+			}
+			if !covers(s.leaf, e.Request.URL) {
 				continue
 			}
 			le := w.lb.Exchanges[w.indexOf(e.Request.URL.String(), j)]
